@@ -26,6 +26,11 @@
 EXTENDS Integers, Sequences, FiniteSets, TLC
 
 Absent == [k |-> "absent", v |-> ""]
+(* "empty": the variable is SET to the empty string (${VAR:-} templating).  OTel env-var spec: "the SDK *)
+(* MUST interpret an empty value of an environment variable the same way as when the variable is     *)
+(* unset": an empty source does not provide the setting, exactly like an absent one.                  *)
+Empty == [k |-> "empty", v |-> ""]
+Unset(s) == s.k \in {"absent", "empty"}
 Valid(v) == [k |-> "valid", v |-> v]
 Bad(kind) == [k |-> kind, v |-> ""]
 Src(kind, v) == [k |-> kind, v |-> v]
@@ -74,7 +79,7 @@ RECURSIVE AllowedFrom(_, _, _, _)
 AllowedFrom(type, srcs, i, dflt) ==
   IF i > Len(srcs) THEN {dflt}
   ELSE LET s == srcs[i] IN
-       IF s.k = "absent" THEN AllowedFrom(type, srcs, i + 1, dflt)
+       IF Unset(s) THEN AllowedFrom(type, srcs, i + 1, dflt)
        ELSE IF IsValid(type, s) THEN {ValueOf(type, s)}
        ELSE Meaning(type, s) \cup AllowedFrom(type, srcs, i + 1, dflt) \cup {dflt}
 Allowed(type, srcs, dflt) == AllowedFrom(type, srcs, 1, dflt)
@@ -128,7 +133,12 @@ PathOf(comp, i, p) == IF i = 2 THEN {Verbatim(p)} ELSE {Appended(comp, p)}
 (* normalised view of source i (1 = options, 2 = signal variable, 3 = generic variable):
    [k \in {"absent","ok","bad"}, host \in {"", id}, paths = set of admissible paths ({} = none given)] *)
 EPView(comp, i, s, id) ==
-  IF s.k = "absent" THEN [k |-> "absent", host |-> "", paths |-> {}]
+  IF Unset(s) THEN [k |-> "absent", host |-> "", paths |-> {}]
+  \* a well-formed value EQUAL TO THE BUILT-IN DEFAULT is still provided by its source: "defhost" =
+  \* WithEndpoint(default host:port), "defurl" = variable holding the default URL (v = its path); the
+  \* request then goes to the default address, i.e. to none of the observing collectors
+  ELSE IF s.k = "defhost" THEN [k |-> "ok", host |-> "none", paths |-> {}]
+  ELSE IF s.k = "defurl" THEN [k |-> "ok", host |-> "none", paths |-> PathOf(comp, i, s.v)]
   ELSE IF s.k = "pathonly" THEN [k |-> "bad", host |-> "", paths |-> PathOf(comp, i, s.v)]
   ELSE IF s.k \in IllFormedURL THEN [k |-> "bad", host |-> "", paths |-> {}]
   ELSE IF i = 1 THEN
@@ -192,7 +202,7 @@ SamplerOfEnv(name, arg) ==
 
 SamplerAllowed(srcs) ==
   LET opt == srcs[1]  name == srcs[2]  arg == srcs[3]
-      env == CASE name.k = "absent" -> {DefaultSampler}
+      env == CASE Unset(name) -> {DefaultSampler}
                [] name.k = "valid"  -> SamplerOfEnv(name.v, arg)
                [] name.k = "case"   -> SamplerOfEnv(name.v, arg) \cup {DefaultSampler}
                [] OTHER             -> {DefaultSampler}
@@ -237,7 +247,11 @@ GenericOptional(setting) == setting \in {"logrecord.attr_count", "logrecord.attr
 (* ------------------------------------------------------------------------ *)
 (*   kind "rawneg": a negative field of a struct / log option, documented as   *)
 (*     "no limit is applied" -> the option provides U                          *)
-DocSrc(setting, s) == IF s.k \in {"nrzero", "nrneg"} THEN Valid(DefaultOf(setting))
+(*   kind "vdef": a well-formed value numerically / textually EQUAL TO THE      *)
+(*     BUILT-IN DEFAULT of the setting (128, -1, 2048, 512, 5000, 30000, 10 s):*)
+(*     it is provided by its source like any other valid value and beats every *)
+(*     lower source, although the outcome happens to equal the default         *)
+DocSrc(setting, s) == IF s.k \in {"nrzero", "nrneg", "vdef"} THEN Valid(DefaultOf(setting))
                       ELSE IF s.k = "rawneg" THEN Valid("U") ELSE s
 DocSrcs(setting, srcs) == [i \in 1..Len(srcs) |-> DocSrc(setting, srcs[i])]
 
@@ -269,7 +283,7 @@ IdealFor(c) ==
 (* A cross configuration = the four variables of the processor in the order  *)
 (* <<queue size, batch size, export timeout, schedule delay>>.               *)
 (* ------------------------------------------------------------------------ *)
-IllFormed(type, s) == s.k # "absent" /\ ~IsValid(type, s) /\ Meaning(type, s) = {}
+IllFormed(type, s) == s.k # "absent" /\ ~IsValid(type, s) /\ Meaning(type, s) = {}   \* includes "empty"
 Norm(type, s) == IF IllFormed(type, s) THEN Absent ELSE s
 CrossTypes == <<"size", "size", "timeout", "delay">>
 NormalizeCross(srcs) == [i \in 1..4 |-> Norm(CrossTypes[i], srcs[i])]
